@@ -2,7 +2,7 @@
    how the injected symbols are assembled (nested pg.coding.context scopes, then global_vars), what a straight-line
    program of name bindings does to them, and which names evaluate(outputs_intermediate=True) reports.
    Environments are Python dicts: association lists in insertion order, keys = name indices, values = object identities.
-   The four decisions the code takes are a *plan* regenerated from execution.py (Gen/EvalOut.v).  Definitions only. *)
+   The four decisions the code takes are a *plan* regenerated from execution.py (Gen/EvalOutPlan.v).  Definitions only. *)
 From Coq Require Import NArith List Bool.
 Import ListNotations.
 Local Open Scope N_scope.
